@@ -48,8 +48,17 @@ SWAPS = [(r" < ", " <= "), (r" <= ", " < "), (r" > ", " >= "), (r" >= ", " > "),
          (r"\[2\]", "[0]"), (r" not ", " "), (r"\b0\b", "1"), (r"\b1\b", "0"), (r"\b2\b", "3")]
 
 
-def sh(cmd, **kw):
-    return subprocess.run(cmd, shell=True, capture_output=True, text=True, **kw)
+def sh(cmd, timeout=None):
+    """run a shell command in its own process group; on timeout the whole group is killed (a mutant may loop for ever)"""
+    import signal
+    p = subprocess.Popen(cmd, shell=True, stdout=subprocess.PIPE, stderr=subprocess.PIPE, text=True, start_new_session=True)
+    try:
+        out, err = p.communicate(timeout=timeout)
+    except subprocess.TimeoutExpired:
+        os.killpg(p.pid, signal.SIGKILL)
+        p.communicate()
+        raise
+    return subprocess.CompletedProcess(cmd, p.returncode, out, err)
 
 
 def candidates(only):
